@@ -346,6 +346,101 @@ var Progs = []Prog{
 		}
 		return fmt.Sprint(atomic.LoadInt32(&v))
 	}},
+	{Name: "cond-signal", Want: []string{"1"}, Run: func() string {
+		var mu sync.Mutex
+		c := sync.NewCond(&mu)
+		ready := false
+		go func() { mu.Lock(); ready = true; c.Signal(); mu.Unlock() }()
+		mu.Lock()
+		for !ready {
+			c.Wait()
+		}
+		mu.Unlock()
+		return "1"
+	}},
+	{Name: "cond-broadcast", Want: []string{"2"}, Run: func() string {
+		var mu sync.Mutex
+		c := sync.NewCond(&mu)
+		open := false
+		var wg sync.WaitGroup
+		var n int32
+		for i := 0; i < 2; i++ {
+			wg.Add(1)
+			go func() {
+				defer wg.Done()
+				mu.Lock()
+				for !open {
+					c.Wait()
+				}
+				mu.Unlock()
+				atomic.AddInt32(&n, 1)
+			}()
+		}
+		mu.Lock()
+		open = true
+		c.Broadcast()
+		mu.Unlock()
+		wg.Wait()
+		return fmt.Sprint(atomic.LoadInt32(&n))
+	}},
+	{Name: "typed-atomics", Want: []string{"3,true"}, Run: func() string {
+		var n atomic.Int32
+		var b atomic.Bool
+		var wg sync.WaitGroup
+		for i := 0; i < 3; i++ {
+			wg.Add(1)
+			go func() { defer wg.Done(); n.Add(1); b.Store(true) }()
+		}
+		wg.Wait()
+		return fmt.Sprint(n.Load(), ",", b.Load())
+	}},
+	{Name: "atomic-swap-winner", Want: []string{"1"}, Run: func() string {
+		var flag, wins int32
+		var wg sync.WaitGroup
+		for i := 0; i < 3; i++ {
+			wg.Add(1)
+			go func() {
+				defer wg.Done()
+				if atomic.SwapInt32(&flag, 1) == 0 {
+					atomic.AddInt32(&wins, 1)
+				}
+			}()
+		}
+		wg.Wait()
+		return fmt.Sprint(wins)
+	}},
+	{Name: "sync-map", Want: []string{"2,7"}, Run: func() string {
+		var m sync.Map
+		var wg sync.WaitGroup
+		for _, k := range []string{"a", "b"} {
+			wg.Add(1)
+			go func(k string) { defer wg.Done(); m.Store(k, 7) }(k)
+		}
+		wg.Wait()
+		n := 0
+		m.Range(func(k, v interface{}) bool { n++; return true })
+		v, _ := m.Load("a")
+		return fmt.Sprint(n, ",", v)
+	}},
+	{Name: "timer-reset", Want: []string{"fired"}, Run: func() string {
+		t := time.NewTimer(time.Hour)
+		t.Reset(time.Millisecond)
+		<-t.C
+		return "fired"
+	}},
+	{Name: "sleep-then-read", Want: []string{"0", "1"}, Run: func() string {
+		var n int32
+		go func() { atomic.StoreInt32(&n, 1) }()
+		time.Sleep(time.Millisecond)
+		return fmt.Sprint(atomic.LoadInt32(&n))
+	}},
+	{Name: "ticker-two-ticks", Want: []string{"2"}, Run: func() string {
+		tk := time.NewTicker(time.Millisecond)
+		<-tk.C
+		<-tk.C
+		tk.Stop()
+		return "2"
+	}},
 	// --- outcomes only the explorer can show
 	{Name: "deadlock-two-mutexes", NativeSkip: true, Want: []string{"ok", "DEADLOCK"}, Run: func() string {
 		var a, b sync.Mutex
